@@ -225,6 +225,8 @@ def reconnect_oracle(ix: Index, scn: dict) -> list[Violation]:
                 continue
             if any(a_ <= seq and b_ >= prev[-1][0] for a_, b_, _k, _t in ctl):
                 continue  # a start()/stop() call since that failure: not a plain retry wait
+            if any(prev[-1][0] < a["seq_new"] < seq for a in attempts):
+                continue  # another attempt has run since (it has just died and its failure is about to be handled)
             # waiting for a retry after a handled failure, started, nothing running: the manager has to be registered
             later = [a for a in attempts if a["seq_new"] > seq]
             if later and abs(later[0]["t_new"] - prev[-1][2]) < 1.0 - 1e-9:
@@ -244,6 +246,13 @@ def reconnect_oracle(ix: Index, scn: dict) -> list[Violation]:
         if live_end and any(z["listeners"] for z in ix.audit["zcs"]):
             out.append(Violation("listening-while-connected", "end", f"at the end of the run session {live_end[0]['conn']} is established and the manager is still registered as mDNS listener"))
     # --- stop ----------------------------------------------------------------------------
+    for seq, t, d in records:
+        # a record that finds the manager registered while it is stopped (stop() has returned, no start() since)
+        before = [x for x in sorted(ctl) if x[0] <= seq]
+        # (stop_callback() only schedules the stop: when that has finished is not visible to the caller)
+        if d["n_listeners"] > 0 and before and before[-1][2] == "rl.stop" and before[-1][1] < seq:
+            out.append(Violation("listening-after-stop", "record", f"mDNS record at t={t:.4f} was delivered to {d['n_listeners']} listener(s) although stop() had returned and start() was not called since"))
+            break
     last_ctl = max(ctl, key=lambda x: x[0]) if ctl else None
     for a, b, kind, t in ctl:
         if kind != "rl.stop" or b == float("inf"):
@@ -369,10 +378,14 @@ def gen_c18(rng: random.Random) -> dict:
     for _ in range(rng.randint(0, 6)):
         pool = [{"type": "PTR", "alias": f"{name}._esphomelib._tcp.local."}, {"type": "A", "name": f"{name}.local."}, {"type": "PTR", "alias": "other._esphomelib._tcp.local."}, {"type": "A", "name": "other.local."}]
         rec = pick(rng, pool, [4, 3, 2, 1])
+        # records of the other kinds a responder announces (service, text, IPv6 address), here of another device
+        others = [{"type": "TXT", "name": "other._esphomelib._tcp.local."}, {"type": "SRV", "name": "other._esphomelib._tcp.local.", "server": "other.local."}, {"type": "AAAA", "name": "other.local."}]
+        if rng.random() < 0.12:
+            rec = pick(rng, others)
         recs = [rec]
         if rng.random() < 0.25:
             # one update carrying several records (the matching one, if any, not necessarily first)
-            recs = [pick(rng, pool, [1, 1, 3, 3]) for _ in range(rng.randint(1, 2))] + [rec]
+            recs = [pick(rng, pool + others, [1, 1, 3, 3, 1, 1, 1]) for _ in range(rng.randint(1, 2))] + [rec]
             rng.shuffle(recs)
         r = rng.random()
         if r < 0.5:
@@ -407,6 +420,20 @@ def gen_c18(rng: random.Random) -> dict:
         steps.append({"do": "rl.stop"})
         ends_started = False
     actors_extra: list = []
+    if ends_started and not any(st["do"] in ("rl.stop", "rl.stop_callback") for st in steps) and rng.random() < 0.5:
+        # stop() lands inside an attempt: while it resolves / connects (cancelled at once) or while it handshakes (stop waits
+        # for the attempt, which may well fail and run its failure path first); started again a little later
+        anchor = pick(rng, [{"on": "sock_connect"}, {"on": "state", "match": {"new": "SOCKET_OPENED"}}, {"on": "state", "match": {"new": "HANDSHAKE_COMPLETE"}}, {"on": "state", "match": {"new": "HANDSHAKE_COMPLETE"}}])
+        anchor.update({"nth": rng.randint(1, 4), "delay": pick(rng, [0.0, 0.001, 0.01, 0.3])})
+        events.append({"at": anchor, "do": "start_actor", "actor": "stopper", "phase": pick(rng, ["pre", "post"])})
+        gap = pick(rng, [0.0, 0.5, 3.0, 10.0])
+        if rng.random() < 0.4:
+            # ... or not at all: whatever the interrupted attempt still does on its way out, nothing may stay behind
+            actors_extra.append({"id": "stopper", "at": "manual", "steps": [{"do": "rl.stop"}]})
+            ends_started = False
+        else:
+            actors_extra.append({"id": "stopper", "at": "manual", "steps": [{"do": pick(rng, ["rl.stop", "rl.stop", "rl.stop_callback"])}, {"do": "sleep", "d": gap}, {"do": "rl.start"}]})
+            tt = max(tt, T) + gap + 35.0
     if rng.random() < 0.3:
         # the application itself ends sessions while the manager runs (graceful or forced); the device may ignore the
         # DisconnectRequest and the TCP connection may die while the client still waits for the answer
